@@ -303,3 +303,15 @@ func describeIDs(ps []*party) string {
 }
 
 var _ = fmt.Sprintf
+
+func recipientsOf(sc *scenario) []age.Recipient {
+	rs := make([]age.Recipient, len(sc.parties))
+	for i, p := range sc.parties {
+		rs[i] = p.rcpt
+	}
+	return rs
+}
+
+func ageEncrypt(dst io.Writer, rs []age.Recipient) (io.WriteCloser, error) {
+	return age.Encrypt(dst, rs...)
+}
